@@ -1184,6 +1184,20 @@ class Engine(MatrixTheory, NumpyTheory, Evaluator):
                         ax_._label = 'lemma:L3'
                         s.assume(ax_)
                         self.assumed_used.add('<lean>::L3 step-exists (machine-checked by setup)')
+                    elif lab.startswith('lemma:L1'):
+                        # Lean-checked lemma L1 (lean/L1_sorted_same_members.lean) for two integer lists: strictly increasing + same members => equal
+                        pa_, pb_ = self.spec_eval(e, s).items
+                        ca_, cb_ = s.heap.lists[pa_.ref], s.heap.lists[pb_.ref]
+                        A_, B_ = ca_.leaves[0], cb_.leaves[0]
+                        i_, j_, k_ = z3.Int(fresh_name('i')), z3.Int(fresh_name('j')), z3.Int(fresh_name('k'))
+                        incA = z3.ForAll([i_, j_], z3.Implies(z3.And(i_ >= 0, i_ < j_, j_ < ca_.length), A_[i_] < A_[j_]))
+                        incB = z3.ForAll([i_, j_], z3.Implies(z3.And(i_ >= 0, i_ < j_, j_ < cb_.length), B_[i_] < B_[j_]))
+                        ainb = z3.ForAll([i_], z3.Implies(z3.And(i_ >= 0, i_ < ca_.length), z3.Exists([j_], z3.And(j_ >= 0, j_ < cb_.length, B_[j_] == A_[i_]))))
+                        bina = z3.ForAll([i_], z3.Implies(z3.And(i_ >= 0, i_ < cb_.length), z3.Exists([j_], z3.And(j_ >= 0, j_ < ca_.length, A_[j_] == B_[i_]))))
+                        ax_ = z3.Implies(z3.And(incA, incB, ainb, bina), z3.And(ca_.length == cb_.length, z3.ForAll([k_], z3.Implies(z3.And(k_ >= 0, k_ < ca_.length), A_[k_] == B_[k_]))))
+                        ax_._label = 'lemma:L1'
+                        s.assume(ax_)
+                        self.assumed_used.add('<lean>::L1 sorted-same-members (machine-checked by setup)')
                     elif lab.startswith('lemma:L4'):
                         # Lean-checked lemma L4 (lean/L4_floor_index.lean) for one integer list: every p at or above the first element has a
                         # floor position k (idx[k] <= p, and p < idx[k+1] when k+1 exists)
@@ -1467,6 +1481,7 @@ class Engine(MatrixTheory, NumpyTheory, Evaluator):
     def assigned_names(self, stmts):
         names = set()
         mutated = set()
+        callee_unknown_receiver = []
 
         class Vis(ast.NodeVisitor):
             def visit_Name(s, n):
@@ -1475,6 +1490,21 @@ class Engine(MatrixTheory, NumpyTheory, Evaluator):
 
             def visit_Call(s, n):
                 f = n.func
+                # a callee whose contract declares `modifies` changes those fields on every iteration: they must be havocked at the loop head
+                cname = f.attr if isinstance(f, ast.Attribute) else (f.id if isinstance(f, ast.Name) else None)
+                if cname is not None:
+                    for key_, cands_ in BY_NAME.items():
+                        if key_ != cname and not key_.endswith('.' + cname):
+                            continue
+                        for c_ in cands_:
+                            for m_ in list(c_.modifies) + list(c_.ghost_exit):
+                                if m_.startswith('self.'):
+                                    if isinstance(f, ast.Attribute) and isinstance(f.value, ast.Name):
+                                        mutated.add(f.value.id + '.' + m_[5:])
+                                    else:
+                                        callee_unknown_receiver.append(cname)
+                                elif m_.startswith('G.'):
+                                    mutated.add(m_)
                 if isinstance(f, ast.Attribute) and f.attr in ('append', 'extend', 'pop', 'insert') and isinstance(f.value, ast.Name):
                     mutated.add(f.value.id)
                 if isinstance(f, ast.Attribute) and f.attr in ('append', 'extend') and isinstance(f.value, ast.Subscript) and isinstance(f.value.value, ast.Name):
@@ -1501,6 +1531,8 @@ class Engine(MatrixTheory, NumpyTheory, Evaluator):
                 s.generic_visit(n)
         for x in stmts:
             Vis().visit(x)
+        if callee_unknown_receiver:
+            raise Unsupported('a loop body calls %s, whose contract modifies fields of a receiver the engine cannot name' % sorted(set(callee_unknown_receiver)))
         return names, mutated
 
     def havoc_for_loop(self, st, body, lc, extra_names=()):
@@ -1722,6 +1754,8 @@ class Engine(MatrixTheory, NumpyTheory, Evaluator):
             seqs, targets_kind = it.extra, 'enumzip'
         elif isinstance(it, (VList, VTuple, VGen)):
             seqs, targets_kind = [it], 'plain'
+        elif isinstance(it, VAssoc) and not it.is_dict:
+            seqs, targets_kind = [it.keys, it.vals], 'zip'        # a list of (int, array) pairs
         else:
             raise Unsupported('for over %r' % (it,))
         seqs = [s.lst if isinstance(s, VGen) else s for s in seqs]
@@ -1732,7 +1766,7 @@ class Engine(MatrixTheory, NumpyTheory, Evaluator):
         hidden = idx
         st.env[hidden] = VInt(0)
         if lc.get('seq'):
-            st.env[lc['seq']] = seqs[0]
+            st.env[lc['seq']] = it if isinstance(it, VAssoc) else seqs[0]
         lens = [st.heap.rags[s.ref].count if isinstance(s, VRag) else st.heap.lists[s.ref].length for s in seqs]
         n = lens[0]
         for l in lens[1:]:
